@@ -8,6 +8,11 @@
 (* checked against Sampling!Pick:                                           *)
 (*   dyadic vectors (p_i = w_i / 2^23 exactly, f32 sums exact):             *)
 (*       count_i = w_i, bucket i = Cum(i-1) .. Cum(i) - 1, none = R - sum   *)
+(*   exact vectors (every p_i a multiple of 2^-30 and every f32 partial sum *)
+(*       exact; c_i = Cum(i) in units of 2^-30, one draw = 2^7 units):      *)
+(*       bucket i = ceil(c_(i-1) / 2^7) .. ceil(c_i / 2^7) - 1              *)
+(*       (Sampling!Share with F = 2^7: probabilities below the resolution   *)
+(*       of the draw still own the draws their bucket contains)             *)
 (*   other vectors ("up to the resolution of the draw"): the buckets are    *)
 (*       contiguous and in declaration order and                            *)
 (*       floor(p_i R) - i - 1 <= count_i <= ceil(p_i R) + i + 1             *)
@@ -20,6 +25,8 @@ Rec == ndJsonDeserialize(IOEnv.TRACE)
 RECURSIVE SumTo(_, _)
 SumTo(s, i) == IF i = 0 THEN 0 ELSE s[i] + SumTo(s, i - 1)
 
+CeilDiv(a, b) == (a + b - 1) \div b
+
 VARIABLES l, bad
 vars == <<l, bad>>
 
@@ -31,6 +38,8 @@ Good(r) ==
   /\ \A i \in 1..n : r.count[i] > 0 => r.first[i] = SumTo(r.count, i - 1)       \* declaration order
   /\ IF r.dyadic
      THEN \A i \in 1..n : r.count[i] = r.w[i]
+     ELSE IF r.exact
+     THEN \A i \in 1..n : r.count[i] = CeilDiv(r.c[i], 128) - CeilDiv(IF i = 1 THEN 0 ELSE r.c[i - 1], 128)
      ELSE \A i \in 1..n : r.lo[i] - i - 1 <= r.count[i] /\ r.count[i] <= r.hi[i] + i + 1
   /\ (n = 1 /\ r.certain) => r.none = 0                     \* probability 1 is always taken
   /\ (n = 0) => r.none = r.R                                \* nothing declared, nothing taken
